@@ -104,6 +104,8 @@ namespace sim
         uint64_t last_activity[NG_MAX_ACTORS];
         uint64_t send_calls  = 0;
         int accept_failures  = 0;               // the next n accept4() calls of gated threads fail with EMFILE
+        bool hold_spares_send = false;          // a held descriptor blocks sendfile() only (header goes out, file body stalls)
+        std::set<int> blocked;                  // held descriptors that have answered would-block since they were held
         // all of this is touched by one thread at a time (gate), so no locking
         void reset()
         {
@@ -217,7 +219,8 @@ int epoll_wait(int epfd, struct epoll_event* evs, int maxev, int timeout)
             epoll_event e = evs[i];
             int fd        = (int)(e.data.u64 & 0xffffffffu);
             auto h        = s.held.find(fd);
-            if (h != s.held.end() && h->second)
+            // (when only sendfile is held, writability is withheld only once a would-block has been answered)
+            if (h != s.held.end() && h->second && (!s.hold_spares_send || s.blocked.count(fd)))
             {
                 e.events &= ~uint32_t(EPOLLOUT);
                 if ((e.events & (EPOLLIN | EPOLLHUP | EPOLLRDHUP | EPOLLERR)) == 0)
@@ -268,6 +271,7 @@ static ssize_t sim_answer(int fd, size_t len, const std::function<ssize_t(size_t
         if (a.kind == sim::BLOCK)
         {
             s.held[fd] = true;
+            s.blocked.insert(fd);
             int c      = ++s.consecutive_block[fd];
             if (c >= 3)
             {
@@ -305,6 +309,15 @@ ssize_t send(int fd, const void* buf, size_t len, int flags)
     static auto fn = sim::real<ssize_t (*)(int, const void*, size_t, int)>("send");
     if (ng_self() < 0 && !sim_has_plan(fd))
         return fn(fd, buf, len, flags);
+    {
+        bool spare;
+        {
+            sim::TsanIgnore ign;
+            spare = sim::S().hold_spares_send;
+        }
+        if (spare)
+            return fn(fd, buf, len, flags);
+    }
 #if defined(__SANITIZE_THREAD__)
     if (ng_self() >= 0)
         return sim_answer(fd, len, [&](size_t n) { return sim_raw_send(fd, buf, n, flags); });
@@ -526,6 +539,7 @@ namespace sim
         TsanIgnore ign;
         State& s   = S();
         s.held[fd] = false;
+        s.blocked.erase(fd);
         ++s.activity;
         static auto ctl = real<int (*)(int, int, int, epoll_event*)>("epoll_ctl");
         for (auto& kv : s.interest)
